@@ -273,7 +273,9 @@ class ValueGen:
                 return ["X-"]
             if st == "big" and not as_key:
                 return ["X" + r.bytes(200 + r.below(400)).hex()]
-            n = r.below(7)
+            # mostly short; now and then longer than the 8-byte scratch of an ErrorReader / ErrorWriter, occasionally longer than any small buffer
+            k = r.below(20)
+            n = r.below(7) if (k < 14 or as_key) else 7 + r.below(6) if k < 17 else 13 + r.below(40) if k < 19 else 200 + r.below(400)
             b = r.bytes(n) if r.below(3) else bytes(r.choice([0x41, 0xc3, 0x28, 0xff, 0x00, 0x80]) for _ in range(n))   # non-UTF-8 too
             return ["X" + (b.hex() or "-")]
         if p == "guid":
@@ -380,7 +382,7 @@ class ValueGen:
 def values_for(d, rng, n_random):
     """boundary values first, then random ones; each a token string"""
     vals = []
-    for st in ("zero", "min", "max"):
+    for st in ("zero", "min", "max", "big"):
         vals.append(" ".join(ValueGen(rng, st).record(d)))
     for i in range(n_random):
         vals.append(" ".join(ValueGen(rng, "rand", maxlen=2 + i % 3).record(d)))
